@@ -1,7 +1,7 @@
 /-
 C15 — model of the DNS client `tbox::network::DnsRequest` (modules/network/dns_request.{h,cpp})
 with the timeout ring of `eventx::TimeoutMonitor` (5 slots, one-second tick), transcribed from
-the tree WITH patches/C15-01 and C15-02 applied (every fetch checked, locals initialised,
+the tree WITH patches/C15-01, C15-02 and C15-03 applied (every fetch checked, locals initialised,
 pointer hop limit).  The transcription of the unpatched parser is in `Orig.lean`.
 
 Part 1: reply parsing (`FetchDomain`, the body of `onUdpRecv`).
@@ -9,8 +9,9 @@ Part 2: pending lookups (`requests_`), timeout ring, server-failure counting, ca
 
 Callbacks are SCRIPTS of API calls carried in the state (`Req.script`): when a lookup's callback
 fires (reply, error status, all servers failed, timeout) the script is executed from inside the
-callback, i.e. before `onUdpRecv`/`onRequestTimeout` erase the lookup and — for timeouts — while
-`TimeoutMonitor::onTimerTick` is still walking the slot it swapped out.
+callback, i.e. (patches/C15-03) after `onUdpRecv`/`onRequestTimeout` have erased the lookup and —
+for timeouts — while `TimeoutMonitor::onTimerTick` is still walking the slot it swapped out.
+The as-found order (callback first, erase afterwards) is kept in `Orig.lean`.
 
 Ghost fields (never printed, never branch on): `P.acc`, `P.jumps`, `ARec.off`, `Req.born`,
 `St.now`, `St.called`, `St.cancelled`, `St.refused`, `St.idReuse`, `Event.age`.
@@ -209,14 +210,13 @@ def runScript (self : Nat) : St → List Act → St × List (Act × Nat)
     let (st2, outs) := runScript self st1 as
     (st2, (a, ret) :: outs)
 
-/-- `if (req->cb) req->cb(result); deleteRequest(req_id);`
-(ghost: `idReuse` is also raised when the callback's own id was handed out again while the
-callback ran — `deleteRequest(req_id)` then erases that new lookup) -/
+/-- `Callback cb = std::move(req->cb); deleteRequest(req_id); if (cb) cb(result);`
+The lookup is erased BEFORE its callback runs: inside the callback the own id is no longer
+outstanding (`isRunning` false, `cancel` of it returns false and is harmless). -/
 def finish (st : St) (id : Nat) (r : Req) (res : Result) : St × List Event :=
-  let (st1, outs) := runScript id st r.script
-  ({ st1 with reqs := erase st1.reqs id, called := st1.called ++ [r.serial],
-              idReuse := st1.idReuse || st1.reqs.any (fun e => e.1 == id && e.2.serial != r.serial) },
-   [⟨r.serial, res, outs, st.now - r.born⟩])
+  let st0 := { st with reqs := erase st.reqs id, called := st.called ++ [r.serial] }
+  let (st1, outs) := runScript id st0 r.script
+  (st1, [⟨r.serial, res, outs, st.now - r.born⟩])
 
 /-- `onUdpRecv()` given what the parser made of the datagram -/
 def applyReply (st : St) : Reply → St × List Event
